@@ -43,9 +43,9 @@ def look : Nodes → Key → Option (List Dir)
   | (k', v) :: rest, k => if k' = k then some v else look rest k
 
 /-- `children[part] = node` / `node.paths = …`: replace the entry or append a new one -/
-def set : Nodes → Key → List Dir → Nodes
+def put : Nodes → Key → List Dir → Nodes
   | [], k, v => [(k, v)]
-  | (k', v') :: rest, k, v => if k' = k then (k, v) :: rest else (k', v') :: set rest k v
+  | (k', v') :: rest, k, v => if k' = k then (k, v) :: rest else (k', v') :: put rest k v
 
 /-- `NewDefaultClassPathManager`: only the root -/
 def init : Nodes := [([], [])]
@@ -59,10 +59,10 @@ def addWalk (ns : Nodes) (cur : Key) : List String → Dir → Nodes
       | some ps => ps
       | none => []
     let ns1 := match rest with
-      | [] => set ns k (if path ∈ ps then ps else ps ++ [path])
+      | [] => put ns k (if path ∈ ps then ps else ps ++ [path])
       | _ :: _ => (match look ns k with
           | some _ => ns
-          | none => set ns k [])
+          | none => put ns k [])
     addWalk ns1 k rest path
 
 /-- `AddNamespace(namespace, path)`: ignored when the path is empty or does not exist -/
@@ -75,7 +75,7 @@ def discover (d : Disk) (part : String) : List Dir → Nodes × Key × Bool → 
   | [], acc => acc
   | p :: ps, (ns, cur, found) =>
     match d.sub p part with
-    | some dir => discover d part ps (set ns (cur ++ [part]) [dir], cur ++ [part], true)
+    | some dir => discover d part ps (put ns (cur ++ [part]) [dir], cur ++ [part], true)
     | none => discover d part ps (ns, cur, found)
 
 /-- `findNamespaceNode`: the node of `parts` below `cur`, with the tree after memoisation -/
